@@ -445,6 +445,9 @@ class Interp:
         fn = f.fn
         if fn.name in self.prims and f.env is None:
             return self.call_prim(fn.name, args, kwargs, node)
+        cc = getattr(self, 'call_counts', None)
+        if cc is not None:
+            cc[fn.key] = cc.get(fn.key, 0) + 1
         if _is_generator(fn.node) and fn.name in getattr(self, 'eager_generators', ()):
             # a generator whose inputs the consumer does not touch: running it to completion first is equivalent
             fr = Frame(fn, fn.module, f.env)
@@ -782,7 +785,10 @@ class Interp:
         if isinstance(obj, ObjV):
             if attr in obj.attrs:
                 return obj.attrs[attr]
-            if attr in obj.cls.methods:
+            meth_ = self.find_method(obj.cls, attr) if obj.cls.module is not None else obj.cls.methods.get(attr)
+            if meth_ is not None:
+                if any(isinstance(d_, ast.Name) and d_.id == 'property' for d_ in meth_.node.decorator_list):
+                    return self.call_function(FuncV(meth_), [obj], {}, n)
                 return BoundV(obj, attr)
             raise Raised('AttributeError: %s.%s' % (obj.cls.name, attr), getattr(n, 'lineno', 0))
         if isinstance(obj, (DictV, SetV)):
@@ -1198,7 +1204,7 @@ class Interp:
                 obj.items[:] = srt.items
                 return NONE
         if isinstance(obj, ObjV):
-            meth = obj.cls.methods.get(name)
+            meth = self.find_method(obj.cls, name) if obj.cls.module is not None else obj.cls.methods.get(name)
             if meth is None:
                 raise Undecided('method %s of %s' % (name, obj.cls.name))
             return self.call_function(FuncV(meth), [obj] + list(args), dict(kwargs), node)
@@ -1327,9 +1333,28 @@ class Interp:
         raise Undecided('method %s of %r (line %s)' % (name, obj, getattr(node, 'lineno', '?')))
 
     # ---------------------------------------------------------------- constructors
+    def find_method(self, ci, name):
+        """method ``name`` of class ``ci`` or of its base classes inside the package (depth-first, left to right)"""
+        seen = set()
+        todo = [ci]
+        while todo:
+            c = todo.pop(0)
+            if c is None or id(c) in seen:
+                continue
+            seen.add(id(c))
+            if name in c.methods:
+                return c.methods[name]
+            for b in c.bases:
+                bn = b.split('.')[-1]
+                for m_ in self.repo.modules.values():
+                    if bn in m_.classes:
+                        todo.append(m_.classes[bn])
+                        break
+        return None
+
     def construct(self, t, args, kwargs, node):
         name = t.name
-        if name in DOC_CLASSES:
+        if name in DOC_CLASSES and not getattr(self, 'concrete_docs', False):
             ci = self.repo.module('doctypes').classes.get(name)
             params = []
             if ci is not None and ci.methods.get('__init__') is not None:
@@ -1352,7 +1377,7 @@ class Interp:
             if ci is None:
                 raise Undecided('class %s not found' % name)
             obj = ObjV(ci)
-            init = ci.methods.get('__init__')
+            init = self.find_method(ci, '__init__')
             if init is not None:
                 self.call_function(FuncV(init), [obj] + list(args), dict(kwargs), node)
             return obj
